@@ -88,7 +88,7 @@ func unsupportedV(t *rapid.T) sb.V {
 		{K: "map:str:int", KV: []sb.V{{K: "str", S: "k"}}, E: []sb.V{{K: "num", N: 1}}},
 		{K: "nilptr:person"}, {K: "nilptr:int"}, {K: "nilptr:slice"}, {K: "nilptr:map"}, {K: "nilptr:plain"}, {K: "nilptr:string"},
 		// typed nil pointers to types whose interface methods have value receivers
-		{K: "nilptr:stringer"}, {K: "nilptr:number"}, {K: "nilptr:boolean"}, {K: "nilptr:decimal"},
+		{K: "nilptr:stringer"}, {K: "nilptr:number"}, {K: "nilptr:boolean"}, {K: "nilptr:decimal"}, {K: "nilptr:customsafe"},
 		{K: "nilslice:int"}, {K: "nilmap:str"}, {K: "person", S: "n", N: 3}, {K: "ptr", E: []sb.V{{K: "plain", N: 1}}},
 		{K: "ptr", E: []sb.V{{K: "person", S: "q", N: 1}}},
 	}
@@ -228,6 +228,11 @@ func init() {
 			if !coerceEq(a, b) {
 				return &Fail{Sig: "uniform:" + uniformClass(cs), Expected: cs.A.K + ": " + itemStr(a), Observed: cs.B.K + ": " + itemStr(b)}
 			}
+		case "numstringer":
+			b := r.Items[1]
+			if a.NS != b.NS || a.B != b.B {
+				return &Fail{Sig: "numeric-stringer", Expected: "number and truth value of " + itemStr(b), Observed: cs.A.K + ": " + itemStr(a)}
+			}
 		case "safe":
 			b := r.Items[1]
 			if !coerceEq(a, b) {
@@ -346,6 +351,26 @@ func init() {
 			others := []sb.V{intV("float64", nn), intV("int64", nn)}
 			b := others[rapid.IntRange(0, 1).Draw(t, "other")]
 			return &c15Case{Rel: "uniform", A: sb.V{K: "float32", N: f}, B: &b, Src: nn.String()}
+		})
+		// integers a float64 holds exactly although they lie beyond 2^53
+		sub.Rapid(c, n/12, func(t *rapid.T) *c15Case {
+			mant := rapid.Int64Range(1<<52, 1<<53-1).Draw(t, "mant")
+			nn := new(big.Int).Lsh(big.NewInt(mant), uint(rapid.IntRange(1, 10).Draw(t, "exp")))
+			other := "int64"
+			if rapid.Bool().Draw(t, "unsigned") {
+				other = "uint64"
+			} else if rapid.Bool().Draw(t, "neg") {
+				nn.Neg(nn)
+			}
+			b := intV(other, nn)
+			return &c15Case{Rel: "uniform", A: intV("float64", nn), B: &b, Src: nn.String()}
+		})
+		// a numeric or boolean type that also has a String method keeps its
+		// number and its truth value (its string is what String returns)
+		sub.Rapid(c, n/50, func(t *rapid.T) *c15Case {
+			k := rapid.IntRange(0, 12).Draw(t, "k")
+			b := sb.V{K: "int", N: float64(k)}
+			return &c15Case{Rel: "numstringer", A: sb.V{K: rapid.SampledFrom([]string{"named:month", "named:duration", "named:level"}).Draw(t, "nk"), N: float64(k)}, B: &b}
 		})
 		// defined string and bool types coerce like string and bool
 		sub.Rapid(c, n/50, func(t *rapid.T) *c15Case {
